@@ -42,14 +42,14 @@ inductive GoScan where
   | done (a : GoAcc)        -- loop finished or `break out`
   | reject                  -- `return` without starting a search
 
-def kwMoveTime : Bytes := Gen.uMoveTime_str.toUTF8.toList.map (·.toNat)
-def kwInfinite : Bytes := Gen.uInfinite_str.toUTF8.toList.map (·.toNat)
-def kwWtime : Bytes := Gen.uWtime_str.toUTF8.toList.map (·.toNat)
-def kwBtime : Bytes := Gen.uBtime_str.toUTF8.toList.map (·.toNat)
-def kwWinc : Bytes := Gen.uWinc_str.toUTF8.toList.map (·.toNat)
-def kwBinc : Bytes := Gen.uBinc_str.toUTF8.toList.map (·.toNat)
-def kwMovesToGo : Bytes := Gen.uMovesToGo_str.toUTF8.toList.map (·.toNat)
-def kwDepth : Bytes := Gen.uDepth_str.toUTF8.toList.map (·.toNat)
+def kwMoveTime : Bytes := Gen.uMoveTime_bytes
+def kwInfinite : Bytes := Gen.uInfinite_bytes
+def kwWtime : Bytes := Gen.uWtime_bytes
+def kwBtime : Bytes := Gen.uBtime_bytes
+def kwWinc : Bytes := Gen.uWinc_bytes
+def kwBinc : Bytes := Gen.uBinc_bytes
+def kwMovesToGo : Bytes := Gen.uMovesToGo_bytes
+def kwDepth : Bytes := Gen.uDepth_bytes
 
 /-- the `for i, token := range tokens` loop: `tokens[i+1]` is read after every keyword (index panic when
     the keyword is the last token) -/
@@ -93,17 +93,23 @@ def goScan : List Bytes → GoAcc → M GoScan
 /-- `doGo` up to the point where the search goroutine is spawned; `none` = returned without searching.
     `time.Duration(ms * 1e6)` is an int64 multiplication: the millisecond value reported is the wrapped
     nanosecond count divided by 10^6 (truncating), which is what `end.Sub(start).Milliseconds()` gives. -/
-def goParams (blackToMove : Bool) (goCommand : Bytes) : M (Option GoParams) := do
-  let tokens := splitOn 32 goCommand
+def goFinish (blackToMove : Bool) (a : GoAcc) : M GoParams :=
+  if a.moveTime != -1 then
+    let ms := wrap64 (a.moveTime - Gen.antiflagMillis)
+    pure ⟨Int.tdiv (wrap64 (ms * 1000000)) 1000000, a.depth⟩
+  else do
+    let ms ← allot blackToMove a.blackLeft a.blackInc a.whiteLeft a.whiteInc a.movesToGo
+    pure ⟨Int.tdiv (wrap64 (1000000 * ms)) 1000000, a.depth⟩
+
+def goTokens (blackToMove : Bool) (tokens : List Bytes) : M (Option GoParams) := do
   match (← goScan tokens {}) with
   | .reject => pure none
-  | .done a =>
-    if a.moveTime != -1 then
-      let ms := wrap64 (a.moveTime - Gen.antiflagMillis)
-      pure (some ⟨Int.tdiv (wrap64 (ms * 1000000)) 1000000, a.depth⟩)
-    else do
-      let ms ← allot blackToMove a.blackLeft a.blackInc a.whiteLeft a.whiteInc a.movesToGo
-      pure (some ⟨Int.tdiv (wrap64 (1000000 * ms)) 1000000, a.depth⟩)
+  | .done a => do
+    let g ← goFinish blackToMove a
+    pure (some g)
+
+def goParams (blackToMove : Bool) (goCommand : Bytes) : M (Option GoParams) :=
+  goTokens blackToMove (splitOn 32 goCommand)
 
 /-! score formatting (uci.go) -/
 
